@@ -151,6 +151,10 @@ def gen_scenario(r):
         # while the container is still open, one of its output ports (possibly beyond the outputs it will end up
         # with) is linked to a scratch node, and the link is deleted again before the outputs are set
         sc["probe"] = r.randint(0, 6)
+    if kind.startswith("insert") and r.random() < 0.5:
+        sc["root_md"] = True     # the builder that gets inserted carries metadata on its root node
+    if kind == "op" and r.random() < 0.3:
+        sc["op_md"] = True
     if kind in ("cfg", "insert_cfg"):
         sc["shape"] = r.randrange(3)
         sc["exit_via_branch"] = r.random() < 0.5
@@ -244,10 +248,13 @@ def run_scenario(ctx, sc):
             h0 = d0.add_op(op, *d0.inputs())
             handle_checks(ctx, h0, {"UnpackTuple": k0, "CallIndirect": k0}.get(name, 1), sc, f"first-use({name})")
         wires = d.inputs()
+        mdkw = {"metadata": {"c16": 1}} if sc.get("op_md") else {}
+        if mdkw:
+            ctx.feat("feature:op-added-with-metadata")
         if via == "add_op":
-            h = d.add_op(op, *wires)
+            h = d.add_op(op, *wires, **mdkw)
         elif via == "add":
-            h = d.add(ops.Command(op, list(wires)))
+            h = d.add(ops.Command(op, list(wires)), **mdkw)
         elif via == "extend":
             (h,) = d.extend(ops.Command(op, list(wires)))
         else:
@@ -291,6 +298,11 @@ def run_scenario(ctx, sc):
     recycle(outer.hugr)
     bwires, sumw = ins[:-1], ins[-1]
 
+    def root_md(b_):
+        if sc.get("root_md") and kind.startswith("insert"):
+            ctx.feat("feature:inserted-root-carries-metadata")
+            b_.hugr[b_.hugr.root].metadata["c16"] = {"k": 1}
+
     def probe(b_):
         if sc.get("probe") is None:
             return
@@ -312,6 +324,7 @@ def run_scenario(ctx, sc):
             b = Dfg(*([B] * k))
         b.set_outputs(*b.inputs(), *b.inputs()[:m if k else 0])
         n = k + (min(m, k) if k else 0)
+        root_md(b)
         h = b if kind == "nested" else outer.insert_nested(b, *bwires[:k])
         handle_checks(ctx, h, n, sc, kind)
     elif kind in ("cfg", "insert_cfg"):
@@ -349,6 +362,7 @@ def run_scenario(ctx, sc):
         else:
             to_exit(e[1])
             to_exit(e[0])
+        root_md(b)
         h = b if kind == "cfg" else outer.insert_cfg(b, *bwires[:k])
         handle_checks(ctx, h, m, sc, f"{kind}[shape {shape}, {'branch' if via_branch else 'branch_exit'}]")
     elif kind in ("cond", "insert_cond"):
@@ -361,6 +375,7 @@ def run_scenario(ctx, sc):
             c0.set_outputs(*([x] * k))
         with b.add_case(1) as c1:
             c1.set_outputs(*c1.inputs()[:k])
+        root_md(b)
         h = b if kind == "cond" else outer.insert_conditional(b, sumw, *bwires[:m])
         handle_checks(ctx, h, k, sc, kind)
     elif kind == "ifelse":
@@ -384,6 +399,7 @@ def run_scenario(ctx, sc):
         ctl = b.add_op(ops.Tag(1, tys.Either([B], [B] * m)), *([j] * m))
         b.set_loop_outputs(ctl, *rest)
         n = m + max(k - 1, 0)
+        root_md(b)
         h = b if kind == "loop" else outer.insert_tail_loop(b, [bwires[0]], bwires[1:k])
         handle_checks(ctx, h, n, sc, kind)
     return True
@@ -398,6 +414,10 @@ def run(ctx):
         op = ops.Custom("c16", tys.FunctionType([], [tys.Bool] * n))
         handle = h.add_node(op, num_outs=n)
         ctx.guard("index", {"n": n}, check_index, ctx, n, handle, "add_node")
+        # ... also when metadata comes with the count, and when the parent is given
+        hm = Hugr()
+        withmd = hm.add_node(op, hm.root, num_outs=n, metadata={"k": [1, "v"]})
+        ctx.guard("index", {"n": n, "metadata": True}, check_index, ctx, n, withmd, "add_node(metadata=...)")
         # the explicit count is what the handle knows, also where the operation's own signature says otherwise
         for own in (0, n + 2):
             if own != n:
